@@ -189,6 +189,16 @@ def obligations(tier):
     for encs, nl in [((0, 8, 0), (3, 2, 3)), ((0, 2, 0), (2, 3, 2)), ((8, 0, 8), (2, 3, 2)), ((2, 0, 2), (3, 2, 3))]:
         o.append(shape(t=1, s=0, nlv=nl, enc=encs, nd=3, ibw=2, fork_max=2, openm=3, batch=-3))
         o.append(shape(t=2 if encs[0] else 5, s=1, nlv=nl, sym=0x1 if q else 0x5, enc=encs, nd=3, ibw=2, fork_max=2, openm=3, batch=-4))
+    # BYTE_ARRAY chunks that fall back from dictionary to PLAIN pages (the parquet-mr pattern) with the page bytes in a heap buffer
+    # (stdio, or a compressed chunk via buffer/mmap): the returned byte arrays must stay readable until the next read call
+    # (added after seeded C06-bytearray-dict-plain-retention)
+    o.append(shape(t=6, s=0, nlv=(2, 2), enc=(8, 0), nd=2, ibw=1, openm=1))
+    o.append(shape(t=6, s=1, nlv=(2, 2), sym=0x1, enc=(8, 0), nd=2, ibw=1, codec=1, openm=3))
+    if not q:
+        o.append(shape(t=6, s=1, nlv=(2, 2, 2), sym=0x1, enc=(0, 8, 0), nd=2, ibw=1, openm=1, batch=2, timeout=1500))
+        o.append(shape(t=6, s=1, nlv=(2, 2, 2), sym=0x1, enc=(8, 0, 0), nd=2, ibw=1, codec=1, openm=3, batch=-4, timeout=1500))
+        o.append(shape(t=6, s=0, nlv=(2, 2, 2), enc=(8, 0, 8), nd=2, ibw=1, codec=7, openm=3, batch=-3))
+        o.append(shape(t=6, s=0, nlv=(3, 2), enc=(2, 0), nd=2, ibw=1, codec=1, openm=1))
     if not q:
         for t in (3, 7, 4):
             o.append(shape(t=t, s=0, nlv=(3, 2, 3), enc=(0, 8, 0), nd=3, ibw=2, fork_max=2 if t == 4 else 8, openm=3, batch=-3 if t == 4 else -4))
